@@ -31,10 +31,25 @@ def run(pid, tier):
     n_inputs = 6 if tier == "quick" else 12
     procs = []
     others = [x for x in recs if x["k"] != "Recipe"]
+    # one process evaluates recipes of the same horizon with different delays one after the other (state that a supply class keeps
+    # from an earlier run of the process then shows as a mismatch): recipes are ordered so that the delays vary fastest and each
+    # horizon is cut into contiguous blocks
+    def order(x):
+        c = x["cfg"]
+        return (x["N"], c["reloc"], c["expand"], c.get("feedMonths", 0), c.get("bioMonths", 0), c.get("swDelay", 0), c.get("indDelay", 0), c["gh"], c.get("ghDelay", 0))
+    by_n = {}
+    for x in sorted(recipes, key=lambda x: (x["N"], x["cfg"]["gh"] is False, order(x))):
+        by_n.setdefault(x["N"], []).append(x)
+    per = max(1, n // len(by_n))
+    blocks = []
+    for N, xs in sorted(by_n.items()):
+        size = -(-len(xs) // per)
+        blocks += [xs[j:j + size] for j in range(0, len(xs), size)]
+    n = len(blocks)
     for i in range(n):
         f = os.path.join(wd, "supply_%d.ndjson" % i)
         with open(f, "w") as fh:
-            for x in (others if i == 0 else [x for x in others if x["k"] == "Stock"]) + recipes[i::n]:
+            for x in (others if i == 0 else [x for x in others if x["k"] == "Stock"]) + blocks[i]:
                 fh.write(json.dumps(x) + "\n")
         procs.append(subprocess.Popen([C.PY, "-m", "harness.supply_replay", f, f + ".rep", str(n_inputs), str(C.seed() * 100 + i)],
                                       cwd=C.scratch_repo(), env=C.worker_env(), stdout=subprocess.DEVNULL, stderr=subprocess.PIPE, text=True))
